@@ -573,8 +573,12 @@ func writeEvidence(root, prop, tier string, seed int64, spec *Spec, results []*H
 		"property_id": prop, "tier": tier, "seed": seed, "level": "model_checking", "coverage": cov,
 		"assumptions": spec.Assumptions, "wall_s": round2(wall.Seconds()), "violations": len(out.violations),
 	}
-	os.MkdirAll(filepath.Join(root, "evidence"), 0o755)
-	writeJSON(filepath.Join(root, "evidence", prop+".json"), ev)
+	evDir := filepath.Join(root, "evidence")
+	if v := os.Getenv("VERIF_EVIDENCE_DIR"); v != "" { // seeded-change trials keep the committed evidence untouched
+		evDir = v
+	}
+	os.MkdirAll(evDir, 0o755)
+	writeJSON(filepath.Join(evDir, prop+".json"), ev)
 }
 
 func round2(x float64) float64 { return float64(int(x*100+0.5)) / 100 }
